@@ -315,7 +315,15 @@ async fn process_bufs(
             }
         };
         let cc_fut = async { compressor_client.data(bufs_arc).await };
-        let (_, _) = tokio::try_join!(lsc_fut, cc_fut)?;
+        let (lsc_res, cc_res) = tokio::join!(lsc_fut, cc_fut);
+        cc_res?;
+        if let Err(e) = lsc_res {
+            // Streaming to a `log tail` listener is best effort: if the listener went
+            // away, stop streaming this task's output, but never fail the task or
+            // lose the stored log because of it.
+            debug!(error = e.to_string(), "Log streaming disabled");
+            *log_stream_client = None;
+        }
     }
     if should_end {
         compressor_client.end().await?;
